@@ -78,7 +78,26 @@ def annotations():
     return out
 
 
+class _StrRaises:
+    def __str__(self): raise ValueError('no str')
+class _StrNone:
+    def __str__(self): return None
+class _ReprRaises:
+    def __repr__(self): raise RuntimeError('no repr')
+class _FormatRaises:
+    def __format__(self, spec): raise KeyError('no format')
+
+
+def unprintable_values():
+    """values that cannot be formatted (C08: building the message about a value that does not match must not raise) - appended to `values()`"""
+    return [('unp-str-raises', _StrRaises()), ('unp-str-none', _StrNone()), ('unp-repr-raises', _ReprRaises()), ('unp-format-raises', _FormatRaises())]
+
+
 def values():
+    return _values() + unprintable_values()
+
+
+def _values():
     return [('None', None), ('0', 0), ('True', True), ('1.5', 1.5), ('nan', float('nan')), ('str', 'a'), ('empty', ''), ('bytes', b'x'),
             ('list', [1, 'a']), ('emptylist', []), ('tuple', (1, 'a')), ('emptytuple', ()), ('dict', {'a': 1}), ('set', {1}), ('frozenset', frozenset({1})),
             ('object', object()), ('int', int), ('type', type), ('List', List), ('fn', _fn), ('lambda', lambda x: x), ('coro_fn', _co), ('genf', _genf),
